@@ -22,16 +22,22 @@ HEADERS = {
     "abi": ("void tc(void); void vc(void); void cu(void); void ef(void); void plain(void);\n",
             ["--override-abi", "tc=thiscall", "--override-abi", "vc=vectorcall",
              "--override-abi", "cu=C-unwind", "--override-abi", "ef=efiapi"]),
+    # the same gated ABIs on function POINTER types: typedefs, members, parameters (they take a different path through codegen)
+    "abiptr": ("typedef void (*tc_cb)(void); typedef void (*vc_cb)(int); typedef void (*cu_cb)(void); typedef int (*ef_cb)(int);\n"
+               "struct CB { tc_cb a; vc_cb b; cu_cb c; ef_cb d; void (*cu_field)(int); int tail; };\n"
+               "void takes(cu_cb p, void (*ef_param)(int)); ef_cb gives(void); extern cu_cb cu_global;\n",
+               ["--override-abi", "tc_cb=thiscall", "--override-abi", "vc_cb=vectorcall", "--override-abi", "cu_cb|cu_field=C-unwind",
+                "--override-abi", "ef_cb|ef_param=efiapi"]),
     "core": ("struct C { int a; unsigned long b; char c; }; long cf(short s, unsigned char u);\n", ["--use-core"]),
     "corestr": ('#define CS "x"\nint g(void);\n', ["--use-core", "--generate-cstr"]),
 }
 HEADERS["all"] = ("".join(h for h, _ in HEADERS.values()),
-                  ["--generate-cstr", "--flexarray-dst", "--use-core", "--override-abi", "cu=C-unwind"])
+                  ["--generate-cstr", "--flexarray-dst", "--use-core", "--override-abi", "cu|cu_cb|cu_field=C-unwind", "--override-abi", "ef_cb|ef_param=efiapi"])
 
 # construct -> (regex on whitespace-free token text, minimal minor version, minimal edition or None)
 # Source: Rust release notes (stabilisation versions), NOT bindgen/features.rs.
 CONSTRUCTS = {
-    "unsafe_extern": (r"unsafeextern", 82, None),
+    "unsafe_extern": (r'unsafeextern"[^"]*"\{', 82, None),   # a block; `unsafe extern "C" fn(..)` pointer types are as old as Rust
     "offset_of": (r"offset_of!", 77, None),
     "cstr_literal": (r'(?<![A-Za-z0-9_"\\])c"', 77, 2021),
     "core_ffi_ctype": (r"::core::ffi::c_", 64, None),
@@ -47,7 +53,7 @@ CONSTRUCTS = {
 }
 # features for monotonicity: once a target enables it, all later targets (same edition setting) must too
 MONOTONE = {
-    "unsafe_extern": r"unsafeextern",
+    "unsafe_extern": r'unsafeextern"[^"]*"\{',
     "offset_of": r"offset_of!",
     "cstr_literal": CONSTRUCTS["cstr_literal"][0],
     "core_ffi_ctype": r"::core::ffi::c_",
